@@ -165,6 +165,9 @@ class Exec:
             else:
                 out.cls("op:mtl")
                 shared, tasks = prog["shared_leaves"], prog["task_leaves"]
+                if st_.get("frozen"):
+                    shared = []  # shared_params=[]: frozen trunk, heads-only step
+                    out.cls("frozen-trunk")
                 mtl_backward([g.get(l) for l in prog["losses"]], [g.get(f) for f in prog["features"]], rec,
                              tasks_params=[[g.leaves[p] for p in t] for t in tasks],
                              shared_params=[g.leaves[p] for p in shared], retain_graph=True, parallel_chunk_size=st_["k"])
@@ -267,7 +270,8 @@ def _machine(report):
             rng = np.random.default_rng(seed)
             m = len(self.prog["losses"])
             ks = [None, 1] + list(range(1, m + 2))
-            self._do({"op": "mtl", "agg": jdcheck.jd_aggregator(rng, m, 2), "k": ks[int(rng.integers(0, len(ks)))]})
+            self._do({"op": "mtl", "agg": jdcheck.jd_aggregator(rng, m, 2), "k": ks[int(rng.integers(0, len(ks)))],
+                      "frozen": bool(rng.integers(0, 5) == 0)})
 
         @rule(seed=st.integers(0, 2**32 - 1), kind=st.sampled_from(["zero", "none", "set", "setview", "setview", "mul", "add"]))
         def edit_grad(self, seed, kind):
